@@ -247,8 +247,8 @@ def run_bin(path, args, stdin_data=None, timeout=1800, env=None, cwd=None):
 
 def parse_jsonl(text):
     out = []
-    for line in text.splitlines():
-        line = line.strip()
+    for line in text.split("\n"):      # not splitlines(): U+2028 etc. inside JSON strings are not line breaks
+        line = line.strip(" \t\r")
         if line.startswith("{"):
             try:
                 out.append(json.loads(line))
